@@ -2,6 +2,7 @@ import MypyVerif.Proofs.VTable
 import MypyVerif.Proofs.ForRange
 import MypyVerif.Proofs.ErrEdges
 import MypyVerif.Proofs.ForZip
+import MypyVerif.Model.TryScope
 import MypyVerif.Model.PyBind
 /-!
 # C05 — mypyc-compiled code behaves like the interpreted source (logic slices)
@@ -453,3 +454,28 @@ example : run 9 [2, 5] = (2, [2, 2]) := by decide
 example : run 9 [4, 2, 4] = (2, [3, 2, 2]) ∧ run 9 [0, 3] = (0, [0, 0]) ∧ run 9 [3, 0] = (0, [1, 0]) := by decide
 
 end ForZip
+
+namespace TryScope
+
+/-- **tryLowering_eq_python.**  With the handler scope the lowering establishes (try body only — read off the real
+    IR on every run), the emitted try statement behaves like CPython's for every shape (with / without `else`,
+    with / without `finally`), every `except` test and every combination of clauses that raise: same clauses run
+    in the same order, same exception propagates. -/
+theorem tryLowering_eq_python (sh : Shape) (isMatch : Nat → Bool) (f : Fires) :
+    irTry bodyOnly sh isMatch f = pyTry sh isMatch f := by
+  unfold irTry pyTry bodyOnly
+  cases hb : f.body with
+  | some e => simp
+  | none =>
+    cases sh.hasElse with
+    | false => simp
+    | true => cases f.else_ <;> simp
+
+/-- … and a scope that also covers the `else:` clause does not: an exception raised in `else` that matches the
+    statement's own handler is swallowed by it. -/
+theorem not_else_in_handler_scope :
+    irTry (fun c => c == .body || c == .else_) ⟨true, false⟩ (fun _ => true) ⟨none, none, some 7, none⟩
+      = ([.body, .else_, .handler], none)
+    ∧ pyTry ⟨true, false⟩ (fun _ => true) ⟨none, none, some 7, none⟩ = ([.body, .else_], some 7) := by decide
+
+end TryScope
